@@ -84,6 +84,7 @@ class Proc:
         self.txn_no = None
         self.dead = False
         self.stragglers = []
+        self.batches = []       # builders made with create_batch(), waiting for their send_batch step
 
 
 async def _start_producer(case, c, tag):
@@ -201,6 +202,40 @@ async def _main(case, obs, loop, net):
                     for t in obs.txns:
                         if t["n"] == proc.txn_no:
                             t["sends"].append(sid)
+            elif kind == "mkbatch":
+                # the explicit batch API: the builder may be made before the transaction it is sent in begins
+                b = p.create_batch()
+                recs = []
+                for _ in range(st[2]):
+                    counters["send"] += 1
+                    sid = counters["send"]
+                    value = b"0.%d." % sid
+                    if b.append(key=None, value=value, timestamp=None) is None:
+                        counters["send"] -= 1
+                        break
+                    recs.append((sid, value))
+                proc.batches.append((st[1] % cl["partitions"], b, recs))
+            elif kind == "send_batch":
+                if not proc.batches:
+                    continue
+                part, b, recs = proc.batches.pop(0)
+                srecs = [{"id": sid, "txn": proc.txn_no, "proc": proc.tag, "partition": part, "value": value,
+                          "accepted": False, "t_call": loop._vtime, "batch_api": True} for sid, value in recs]
+                obs.sends.extend(srecs)
+
+                async def do_send_batch():
+                    fut = await p.send_batch(b, "t0", partition=part)
+                    for srec in srecs:
+                        track_send(proc, part, fut, srec)
+                    return None
+                r = await call(proc, "send", do_send_batch, {"send_id": srecs[0]["id"] if srecs else None,
+                                                              "partition": part, "batch_ids": [x["id"] for x in srecs]})
+                for srec in srecs:
+                    srec["call_outcome"] = r["outcome"]
+                    if obs.txns and proc.txn_no and srec["accepted"]:
+                        for t in obs.txns:
+                            if t["n"] == proc.txn_no:
+                                t["sends"].append(srec["id"])
             elif kind == "offsets":
                 offs = {TopicPartition("src", int(k)): v for k, v in st[1].items()}
                 r = await call(proc, "offsets", lambda: p.send_offsets_to_transaction(offs, st[2]))
